@@ -36,5 +36,5 @@ MANIFEST = {
              "source_guard_atoms_match_model (same conditions, as sets: order and error variant are not part of the invariant), source_*_refuses_iff (the operations refuse exactly when a guard of the SOURCE's chain fires, and then change nothing), source_index_updates_match_model re-check the model against them."),
     "design_ref": "5 / C06, Appendix C",
     "note": "trusted: Lean kernel + 3 standard axioms; harness/driver glue; file-name function = the C07 model (contracts proved in Props/C07Containers); glyph contents not modelled",
-    "technique": "Lean 4 invariant proof by induction over operation histories + differential histories against the real containers",
+    "technique": "Lean 4 invariant proof by induction over operation histories; guard chains and index-update table regenerated from layer.rs by a translator and tied by theorems; differential histories against the real containers",
 }
